@@ -28,16 +28,19 @@ let toks = ref [||] and pos = ref 0
 let next () = let t = !toks.(!pos) in incr pos; int_of_string t
 let next_nat () = nat_of_int (next ())
 let next_opt () = let v = next () in if v < 0 then None else Some (nat_of_int v)
+(* node ids / reference names of the G streams: small numbers, 0 = the empty string *)
+let id_of_int v = if v = 0 then [] else [nat_of_int v]
+let next_id () = let v = next () in if v < 0 then None else Some (id_of_int v)
 let next_list () = let n = next () in List.init n (fun _ -> next_nat ())
 
 let read_ops () =
   let n = next () in
   List.init n (fun _ ->
     match next () with
-    | 0 -> let v = next () in let id = next_opt () in NewNode (KLeaf (v <> 0), id)
-    | 1 -> let a = next () in let no = next () in let id = next_opt () in
+    | 0 -> let v = next () in let id = next_id () in NewNode (KLeaf (v <> 0), id)
+    | 1 -> let a = next () in let no = next () in let id = next_id () in
            NewNode (KDec (a <> 0, no <> 0), id)
-    | 2 -> let nm = next_nat () in let id = next_opt () in NewNode (KRef nm, id)
+    | 2 -> let nm = id_of_int (next ()) in let id = next_id () in NewNode (KRef nm, id)
     | 3 -> let s = next_nat () in let t = next_nat () in AddT (s, t)
     | 4 -> AddT (O, O) (* placeholder, see read_prog *)
     | _ -> failwith "bad op")
@@ -48,10 +51,10 @@ let read_prog () =
   let n = next () in
   List.init n (fun _ ->
     match next () with
-    | 0 -> let v = next () in let id = next_opt () in POp (NewNode (KLeaf (v <> 0), id))
-    | 1 -> let a = next () in let no = next () in let id = next_opt () in
+    | 0 -> let v = next () in let id = next_id () in POp (NewNode (KLeaf (v <> 0), id))
+    | 1 -> let a = next () in let no = next () in let id = next_id () in
            POp (NewNode (KDec (a <> 0, no <> 0), id))
-    | 2 -> let nm = next_nat () in let id = next_opt () in POp (NewNode (KRef nm, id))
+    | 2 -> let nm = id_of_int (next ()) in let id = next_id () in POp (NewNode (KRef nm, id))
     | 3 -> let s = next_nat () in let t = next_nat () in POp (AddT (s, t))
     | 4 -> PGen
     | _ -> failwith "bad op")
@@ -92,7 +95,7 @@ let next_str () = str_of_tok (next_tok ())
 let show_kind = function
   | KLeaf v -> if v then "L1" else "L0"
   | KDec (a, n) -> "D" ^ (if a then "1" else "0") ^ (if n then "1" else "0")
-  | KRef nm -> "R" ^ string_of_int (int_of_nat nm)
+  | KRef nm -> "R" ^ (match nm with [] -> "0" | x :: _ -> string_of_int (int_of_nat x))
 let dump_graph (g : graph) =
   String.concat ";" (List.mapi (fun n nd ->
     Printf.sprintf "%d:%s:%s:%s" n (show_kind nd.nkind) (ints nd.outs)
@@ -289,6 +292,36 @@ let run_rs () =
   let pat = if next () <> 0 then Some (read_regex ()) else None in
   print_endline ("str=" ^ show_res tok_of_str (gen_random_string v fuel mn mx pat))
 
+(* stream GM: grammar -> graph, entries, samples *)
+let rec read_rhs () =
+  match next_tok () with
+  | "T" -> GTerm (next_str ())
+  | "N" -> GNT (next_str ())
+  | "C" -> let k = next () in GConcat (List.init k (fun _ -> read_rhs ()))
+  | "A" -> let k = next () in GAlt (List.init k (fun _ -> read_rhs ()))
+  | "R" -> let a = next_nat () in let b = next_nat () in GRange (a, b)
+  | _ -> let start = next_nat () in let stop = next_opt () in let e = read_rhs () in GRep (e, start, stop)
+let front_end_obs v fuel st root =
+  let g = st.b_graph in
+  let b = Buffer.create 1024 in
+  Buffer.add_string b ("graph=" ^ dump_canon g (show_payload st) fuel root);
+  (match generate_paths v fuel g root aempty aempty with
+   | Ok (_, (es, stt)) ->
+     Buffer.add_string b ("|entries=" ^ canon_entries g fuel root es ^ "|status=" ^ show_res (fun () -> "") stt);
+     Buffer.add_string b ("|samples=" ^ String.concat ";" (List.map (fun e ->
+       show_res (fun tr -> tok_of_str (output_of st tr)) (execute fuel g root e.epath)) es))
+   | r -> Buffer.add_string b ("|fail=" ^ show_res (fun _ -> "") r));
+  Buffer.contents b
+let run_gm () =
+  let v = read_variant () in
+  let fuel = next_nat () in
+  let n = next () in
+  let g = List.init n (fun _ -> let name = next_str () in (name, read_rhs ())) in
+  let start = next_str () in
+  match parse_grammar fuel g start with
+  | Ok (st, root) -> print_endline (front_end_obs v fuel st root)
+  | r -> print_endline ("parse=" ^ show_res (fun _ -> "") r)
+
 (* stream O: SampleCache histories *)
 let ecls_of_code = function
   | 0 -> EResolveReference | 1 -> EInternal | 2 -> ENormalization | 3 -> EJsonPointer
@@ -362,6 +395,7 @@ let () =
            | "GO" -> run_go ()
            | "R" -> run_r ()
            | "RS" -> run_rs ()
+           | "GM" -> run_gm ()
            | "F" -> run_f ()
            | "O" -> run_o ()
            | t -> print_endline ("error=unknown-stream:" ^ t)
